@@ -619,7 +619,8 @@ func escapeIndep(s string) string {
 }
 
 var hosts = []string{"example.com", "github.com", "rsc.io", "golang.org", "a.b-c.io", "x.org"}
-var elems = []string{"foo", "Foo", "BAR", "x_y", "my_vault", "a", "b", "Quote", "z-1", "q.r", "X_v", "_x", "v", "vv", "x_", "a~b", "CamelCase"}
+var elems = []string{"foo", "Foo", "BAR", "x_y", "my_vault", "a", "b", "Quote", "z-1", "q.r", "X_v", "v", "vv", "a~b", "CamelCase", "c", "a_b_c"}
+var badElems = []string{"_x", "x_", "a__b"} // the derived file name does not decode: NewServer fails
 var majors = []string{"v2", "v3", "v10"}
 var gopkgs = []string{"gopkg.in/yaml.v2", "gopkg.in/check.v1", "gopkg.in/x.v0", "gopkg.in/Foo/bar.v3", "gopkg.in/y.v2-unstable"}
 var badPaths = []string{"Example.com/x", "example/x", "example.com/x/v1", "example.com/con", "example.com/a~1", "example.com/.x", "example.com/x.", "-x.com/a", "example.com/x/v02", "example.com/a@b", "gopkg.in/yaml", "example.com/v2.1"}
@@ -634,7 +635,11 @@ func genPath(r *rand.Rand) string {
 	p := hosts[r.Intn(len(hosts))]
 	n := 1 + r.Intn(3)
 	for i := 0; i < n; i++ {
-		p += "/" + elems[r.Intn(len(elems))]
+		if r.Intn(40) == 0 {
+			p += "/" + badElems[r.Intn(len(badElems))]
+		} else {
+			p += "/" + elems[r.Intn(len(elems))]
+		}
 	}
 	if r.Intn(4) == 0 {
 		p += "/" + majors[r.Intn(len(majors))]
@@ -771,7 +776,7 @@ func genDir(r *rand.Rand, dir string, allowBad bool) [][2]string {
 	}
 	for i := 0; i < n; i++ {
 		p := paths[r.Intn(len(paths))]
-		if allowBad && r.Intn(12) == 0 {
+		if allowBad && r.Intn(20) == 0 {
 			p = badPaths[r.Intn(len(badPaths))]
 		}
 		v := genVersion(r, p)
@@ -1134,6 +1139,7 @@ func runProxy(tier string, seed int64, model string, replay string) *corr.Result
 			}
 			enumStrings([]byte("aA!/.v10-_~"), l1, addStr)
 			enumStrings([]byte("v10.-+a"), l2, addStr)
+			enumStrings([]byte("09af/:`gAF"), 3, addStr) // the boundaries of allHex's ranges
 			res.Exhaustive = true
 			res.Extra["exhaustive_spaces"] = []string{fmt.Sprintf("all strings over %q up to length %d", "aA!/.v10-_~", l1), fmt.Sprintf("all strings over %q up to length %d (version shaped)", "v10.-+a", l2)}
 			var pool []string
@@ -1229,11 +1235,12 @@ func runProxy(tier string, seed int64, model string, replay string) *corr.Result
 
 	// ------------------------------------------------------------ scenarios
 	type scn struct {
-		es     []entry
-		urls   []string
-		out    runOut
-		stored map[[2]string]*storedMod
-		line   string
+		es       []entry
+		urls     []string
+		out      runOut
+		stored   map[[2]string]*storedMod
+		line     string
+		intended [][2]string
 	}
 	var scns []*scn
 	runScenario := func(es0 []entry, gen func(dir string) [][2]string, urls0 []string, conc int) {
@@ -1246,7 +1253,7 @@ func runProxy(tier string, seed int64, model string, replay string) *corr.Result
 		} else {
 			writeStore(dir, es0)
 		}
-		s := &scn{es: readStore(dir)}
+		s := &scn{es: readStore(dir), intended: intended}
 		s.stored = specStored(s.es)
 		s.urls = urls0
 		if s.urls == nil {
@@ -1364,9 +1371,6 @@ func runProxy(tier string, seed int64, model string, replay string) *corr.Result
 			if len(sm.contents) > 1 {
 				res.Distribution["stored-modules-several-layouts"]++
 			}
-			if strings.Contains(k[0], "_") {
-				res.Distribution["stored-paths-with-underscore"]++
-			}
 			if k[0] != strings.ToLower(k[0]) || k[1] != strings.ToLower(k[1]) {
 				res.Distribution["stored-with-upper-case"]++
 			}
@@ -1377,6 +1381,11 @@ func runProxy(tier string, seed int64, model string, replay string) *corr.Result
 				res.Distribution["stored-version-valid"]++
 			default:
 				res.Distribution["stored-version-invalid-for-path"]++
+			}
+		}
+		for _, m := range s.intended {
+			if s.stored[m] == nil {
+				res.Distribution["intended-modules-aliased-or-undecodable (path or version with '_')"]++
 			}
 		}
 		for _, e := range s.es {
@@ -1398,6 +1407,17 @@ func runProxy(tier string, seed int64, model string, replay string) *corr.Result
 				seenURL[u] = true
 				if rp.status == 200 {
 					served++
+					switch {
+					case strings.HasSuffix(u, "/@v/list"):
+						res.Distribution["served-list"]++
+					case strings.HasSuffix(u, ".zip"):
+						res.Distribution["served-zip"]++
+					default:
+						res.Distribution["served-info-or-mod"]++
+					}
+					if i := strings.LastIndex(u, "/@v/"); i >= 0 && strings.Contains(u[i:], ".") && isAllHexIndep(u[i+4:strings.LastIndex(u, ".")]) {
+						res.Distribution["served-commit-hash-query"]++
+					}
 				}
 			}
 			input := "scn " + encodeStore(s.es, rand.New(rand.NewSource(1))) + " " + shortsField(s.es) + " " + hx(u)
